@@ -99,13 +99,11 @@ theorem exit_fail_iff (c : Cfg) (h : (run c).exit ≠ .hang) :
         ∃ p ∈ c.plugins, PluginFailed p (finish (flagsOf c) p)) :=
   run_exit_fail_iff c h
 
-/-- **naming** (`…_partial`: the full clause "failure *naming* the plugin iff it failed" does
-not hold of the current code, see `goodbye_failure_unnamed`): the error output names a plugin
-iff it failed in some other way than at goodbye. -/
-theorem exit_names_plugin_partial (c : Cfg) (h : (run c).exit ≠ .hang) (p : Plugin) (hp : p ∈ c.plugins) :
-    namedIn (finish (flagsOf c) p) = true ↔
-      ((finish (flagsOf c) p).hsOk = false ∨ HEvent.recvErr .generate ∈ (finish (flagsOf c) p).h ∨
-        ErrKind.dotdot ∈ (finish (flagsOf c) p).errs ∨ p.exitCode ≠ 0) :=
+/-- **naming**: in a terminating run the error output names a plugin if and only if that
+plugin failed — at the handshake, at generate, with a ".." path, at goodbye, or by its exit
+status (together with `exit_fail_iff`: failure *naming* the plugin iff the plugin failed). -/
+theorem exit_names_plugin (c : Cfg) (h : (run c).exit ≠ .hang) (p : Plugin) (hp : p ∈ c.plugins) :
+    namedIn (finish (flagsOf c) p) = true ↔ PluginFailed p (finish (flagsOf c) p) :=
   shape_named p _ (finish_shape _ p (flagsOK_of_not_hang c h p hp) ((not_hang c h).2.2 p hp))
 
 /-- what each reported error means in terms of the host's history with that plugin. -/
@@ -118,14 +116,14 @@ theorem error_meaning (c : Cfg) (h : (run c).exit ≠ .hang) (p : Plugin) (hp : 
     (ErrKind.dotdot ∈ r.errs → HEvent.recvOk .generate ∈ r.h) :=
   shape_errs p _ (finish_shape _ p (flagsOK_of_not_hang c h p hp) ((not_hang c h).2.2 p hp))
 
-/-- Finding D41 (negation of "failure naming the plugin" by a concrete witness): plugin `b`
-fails only at goodbye; the run exits with failure after the files were written and the error
-output names no plugin. -/
-theorem goodbye_failure_unnamed :
+/-- Regression case of finding D41 (fixed in /repo: `transportHandle.Close` now wraps the goodbye
+error with the plugin's name): plugin `b` fails only at goodbye; the run exits with failure after
+the files were written and the error output names `b`, and only `b`. -/
+theorem goodbye_failure_named :
     (run cfgD41).exit = .fail ∧ (run cfgD41).wrote.isSome = true ∧
     (run cfgD41).recs.map (·.errs) = [[], [.goodbye]] ∧
-    (run cfgD41).recs.map namedIn = [false, false] :=
-  goodbye_failure_unnamed_run
+    (run cfgD41).recs.map namedIn = [false, true] :=
+  goodbye_failure_named_run
 
 /-- **completion order**: the per-plugin histories and the exit verdict are the same for every
 order in which the concurrent calls complete. -/
